@@ -60,6 +60,21 @@ type SvcOpts struct {
 	Handlers string `json:"handlers"` // default | record | parse
 	Addr     string `json:"addr"`
 	Dialect  int    `json:"dialect,omitempty"`
+	// KeyMode: "" = the library's default key (the phone number); "tag" = a WithKeyFunc whose key differs from the
+	// phone number ("veh/" + the digits reversed)
+	KeyMode string `json:"key_mode,omitempty"`
+}
+
+// KeyOfDigits is the session key the configured key function gives a terminal with these phone digits.
+func (p *Plan) KeyOfDigits(d string) string {
+	if p.Svc.KeyMode == "tag" {
+		b := []byte(d)
+		for i, j := 0, len(b)-1; i < j; i, j = i+1, j-1 {
+			b[i], b[j] = b[j], b[i]
+		}
+		return "veh/" + string(b)
+	}
+	return d
 }
 
 type AttOpts struct {
